@@ -893,6 +893,10 @@ func (a *A) parserResult(prs *ssa.Call) {
 				"skip=false, yet on the branch ["+label+"] parseData returns with a nil error and ds still holding the custom parser's data (extract #0 of prs(ps) reaches the return without an intervening assignment): the default output (nothing) is replaced by the parser's data")
 		}
 	}
+	// when the default process is a function of its own that parseData tail-calls, its returns are the returns meant here
+	if dp := a.defaultProcess(pd); dp != pd {
+		n += len(ssau.Returns(dp))
+	}
 	a.R.Floor(rule, "nil-error returns of parseData after the skip=false edge", n, 2)
 }
 
